@@ -721,6 +721,25 @@ func c08Oracle(c *oracleCtx) {
 		{"hist:merge", func() any { return NewObject("a", NewList(1)).Merge(NewObject("b", NewObject(), "c", NewList())) }},
 		{"hist:parsed", func() any { o, _ := ParseObject(`{"a":[],"b":{},"c":[[],{}],"d":[1,[2]]}`); return o }},
 	}
+	// chains far deeper than the small trees: object in object, list in list, alternating; every level of the clone is
+	// a copy, whatever the depth (round O/P, C08-P: a recursion guard that attaches level 64 by reference)
+	for _, depth := range []int{31, 32, 33, 63, 64, 65, 100, 127, 128, 129, 255, 256, 257, 1000} {
+		for _, pat := range []string{"O", "L", "OL", "LO", "OOL"} {
+			depth, pat := depth, pat
+			extra = append(extra, treeGen{fmt.Sprintf("chain:%s:%d", pat, depth), func() any {
+				var cur any = NewObject("leaf", NewList(1))
+				for lvl := depth - 1; lvl >= 0; lvl-- {
+					if pat[lvl%len(pat)] == 'O' {
+						cur = NewObject("a", cur, "n", lvl)
+					} else {
+						cur = NewList(cur, lvl)
+					}
+				}
+				return cur
+			}})
+		}
+	}
+	c.bound = fmt.Sprintf("%d trees x 2 directions (70 of them chains of depth 31..1000)", len(trees)+len(extra))
 	for _, tg := range append(trees, extra...) {
 		tg := tg
 		for dir := 0; dir < 2; dir++ {
